@@ -347,11 +347,15 @@ fn catalogue<V: Cv>(thorough: bool, seed: u64) -> Vec<Task<V>> {
         m1.push(vec![Val::S(rand_scalar::<V>(&mut rng)), pv(&id)]);
         m1.push(vec![Val::S(&r - 1u8), pv(&g)]);
         m1.push(vec![Val::S(Big::zero()), pv(&id)]);
+        // bases outside the prime-order subgroup (admitted by the BLS12-381 chip, "the whole BLS
+        // curve"): own entry, so that a failure there has its own signature
+        let mut m1o: Vec<Vec<Val>> = vec![];
         for o in &pts.outside {
-            m1.push(vec![Val::S(rand_scalar::<V>(&mut rng)), pv(o)]);
-            m1.push(vec![Val::S(Big::from(2u8)), pv(o)]);
+            m1o.push(vec![Val::S(rand_scalar::<V>(&mut rng)), pv(o)]);
+            m1o.push(vec![Val::S(Big::from(2u8)), pv(o)]);
         }
-        for i in 0..if thorough { 10 } else { 1 } {
+        push(Op::Msm(1), "msm[1; base outside the prime-order subgroup]", m1o, mul_cost, false, false);
+        for i in 0..if thorough { if foreign { 4 } else { 10 } } else { 1 } {
             m1.push(vec![Val::S(rand_scalar::<V>(&mut rng)), pv(&pts.r[i % pts.r.len()])]);
         }
         push(Op::Msm(1), "msm[1]", m1, mul_cost, true, foreign);
@@ -604,7 +608,7 @@ fn main() {
     let atk = AtkOpts {
         small: if thorough { ArsBudget { restarts: 64, nodes_per_restart: 4000, max_changed: 48 } } else { ArsBudget { restarts: 12, nodes_per_restart: 1000, max_changed: 24 } },
         foreign_small: if thorough {
-            ArsBudget { restarts: xu("fs-restarts", 8), nodes_per_restart: xu("fs-nodes", 300), max_changed: 48 }
+            ArsBudget { restarts: xu("fs-restarts", 6), nodes_per_restart: xu("fs-nodes", 100), max_changed: 32 }
         } else {
             ArsBudget { restarts: xu("fs-restarts", 5), nodes_per_restart: xu("fs-nodes", 60), max_changed: 24 }
         },
@@ -615,9 +619,9 @@ fn main() {
         },
         real_k_max: 12,
         max_targets: if thorough { 40 } else { 12 },
-        max_targets_foreign: xu("f-targets", if thorough { 16 } else { 10 }),
-        max_targets_big: xu("big-targets", if thorough { 8 } else { 6 }),
-        hint_cells: xu("hint-cells", if thorough { 8 } else { 3 }),
+        max_targets_foreign: xu("f-targets", if thorough { 12 } else { 10 }),
+        max_targets_big: xu("big-targets", if thorough { 6 } else { 4 }),
+        hint_cells: xu("hint-cells", if thorough { 4 } else { 2 }),
     };
     rep.set(
         "ars_budgets",
@@ -643,7 +647,7 @@ fn main() {
         jobs.retain(|j| j.name().contains(f.as_str()));
     }
     let seed = ctx.seed;
-    let only_idx = only.as_ref().map(|(_, i)| *i).filter(|i| *i != usize::MAX);
+    let only_idx = only.as_ref().map(|(_, i)| *i).filter(|i| *i != usize::MAX).or(ctx.extra.get("input").and_then(|v| v.parse().ok()));
     // one unit of work per (entry, input): the expensive entries would otherwise serialise the run
     let mut units: Vec<(usize, usize, u64)> = vec![];
     for (ji, j) in jobs.iter().enumerate() {
